@@ -224,7 +224,13 @@ class dotdict_base( object ):
         must return AttributeError if the attribute doesn't exist."""
         mine,rest		= self._resolve( key ) if '.' in key else (key,None)
         if '[' in mine:
-            target              = eval( mine, {'__builtins__':{}}, self )
+            try:
+                target          = eval( mine, {'__builtins__':{}}, self )
+            except KeyError:
+                raise
+            except Exception as exc:
+                # An unknown name, an index out of range, ...: the path does not exist
+                raise KeyError( 'cannot get "%s" (%s: %s)' % ( mine, exc.__class__.__name__, exc ))
         else:
             target              = super( dotdict_base, self ).__getitem__( mine )
         if rest is None:
